@@ -366,9 +366,11 @@ func wellFormed(h HistCase) bool {
 }
 
 func runHist(c *rig.Ctx, h HistCase, record bool) bool {
+	lastClass = ""
 	fail := func(kind, class, what string, impl, model interface{}) bool {
+		lastClass = class
 		if record {
-			c.Fail(rig.Failure{Kind: kind, Class: class, What: what, Case: h, Impl: impl, Model: model})
+			report(c, rig.Failure{Kind: kind, Class: class, What: what, Case: h, Impl: impl, Model: model})
 		}
 		return false
 	}
@@ -423,10 +425,12 @@ func runHist(c *rig.Ctx, h HistCase, record bool) bool {
 }
 
 func shrinkHist(c *rig.Ctx, h HistCase) HistCase {
+	runHist(c, h, false)
+	want := lastClass // keep the kind of failure while shrinking
 	h.Ops = rig.ShrinkList(h.Ops, func(ops []Op) bool {
 		x := h
 		x.Ops = ops
-		return !runHist(c, x, false)
+		return !runHist(c, x, false) && lastClass == want
 	})
 	// drop schemas one at a time
 	for i := range h.Ops {
@@ -438,7 +442,7 @@ func shrinkHist(c *rig.Ctx, h HistCase) HistCase {
 			x := h
 			x.Ops = append([]Op{}, h.Ops...)
 			x.Ops[i].Schemas = ss
-			return !runHist(c, x, false)
+			return !runHist(c, x, false) && lastClass == want
 		})
 	}
 	return h
@@ -714,8 +718,8 @@ func histFeatures(h HistCase, outs []Out) (nontrivial bool, list []string) {
 }
 
 func genHist(c *rig.Ctx) {
-	n := c.Budget(1500, 60000)
-	for i := 0; i < n && c.NFailures() < 5; i++ {
+	n := c.Budget(5000, 120000)
+	for i := 0; i < n && judgeFailures < 5; i++ {
 		h := genHistCase(c)
 		outs, _ := runImplHist(h)
 		nt, feats := histFeatures(h, outs)
